@@ -183,17 +183,28 @@ Proof.
     rewrite split_on_app by assumption. f_equal. apply IH. congruence.
 Qed.
 
+Lemma blank_join (l : list str) : l <> [] -> l <> [[]] -> Forall trimmed l -> blank (join ","%char l) = false.
+Proof.
+  intros H0 H1 Ht. unfold blank. destruct l as [|x [|y r]]; [congruence| |].
+  - cbn [join]. destruct x as [|a x]; [exfalso; apply H1; reflexivity|]. inversion Ht as [|? ? [Hh _] _]; subst. cbn in Hh. cbn [forallb]. rewrite Hh. reflexivity.
+  - change (join ","%char (x :: y :: r)) with (x ++ ","%char :: join ","%char (y :: r)).
+    rewrite forallb_app. cbn [forallb]. replace (is_ws ","%char) with false by reflexivity. cbn [andb]. apply andb_false_r.
+Qed.
+
+(* the empty list included; the one list that has no text form of its own is [""] (its text is the empty text, which is the empty list) *)
 Theorem list_roundtrip (l : list str) :
-  l <> [] -> Forall (free_of ","%char) l -> Forall trimmed l ->
+  l <> [[]] -> Forall (free_of ","%char) l -> Forall trimmed l ->
   items (join ","%char l) = l.
 Proof.
-  intros Hne Hf Ht. unfold items. rewrite split_join by assumption.
+  intros Hne1 Hf Ht. unfold items. destruct l as [|x0 l0] eqn:El; [reflexivity|]. rewrite <- El in *.
+  assert (Hne : l <> []) by (rewrite El; discriminate).
+  rewrite blank_join by assumption. rewrite split_join by assumption. clear El Hne1.
   induction Ht as [|x l Hx Hl IH]; cbn; [reflexivity|]. rewrite strip_trimmed by assumption. f_equal.
-  destruct l; [reflexivity|]. apply IH; [congruence | inversion Hf; assumption].
+  destruct l; [reflexivity|]. apply IH; [inversion Hf; assumption | congruence].
 Qed.
 
 Theorem list_and_tuple_parse d (l : list str) :
-  l <> [] -> Forall (free_of ","%char) l -> Forall trimmed l ->
+  l <> [[]] -> Forall (free_of ","%char) l -> Forall trimmed l ->
   classify d TList = KIterable -> classify d TTuple = KIterable ->
   parse d TList (join ","%char l) = Ok (VList l) /\ parse d TTuple (join ","%char l) = Ok (VTuple l).
 Proof.
@@ -221,19 +232,23 @@ Fixpoint dict_build (kvs : list (str * str)) (acc : list (str * str)) : list (st
   match kvs with [] => acc | (k, v) :: r => dict_build r (dict_set acc k v) end.
 
 Theorem dict_roundtrip (kvs : list (str * str)) :
-  kvs <> [] ->
   Forall (fun kv => clean (fst kv) /\ clean (snd kv) /\ fst kv <> [] /\ snd kv <> []) kvs ->
   parse_dict (join ","%char (map kv_text kvs)) = Ok (VDict (dict_build kvs [])).
 Proof.
-  intros Hne H. unfold parse_dict.
+  intros H. unfold parse_dict. destruct kvs as [|kv0 kvs0] eqn:Ek; [reflexivity|]. rewrite <- Ek in *.
+  assert (Hne : kvs <> []) by (rewrite Ek; discriminate).
+  assert (Tr : Forall trimmed (map kv_text kvs)).
+  { apply Forall_map. eapply Forall_impl; [|exact H]. intros [k v] [[_ [_ T1]] [[_ [_ T2]] [N1 N2]]]. cbn [fst snd] in *. apply trimmed_kv; assumption. }
+  rewrite blank_join; [| rewrite Ek; discriminate | | exact Tr].
+  2:{ rewrite Ek. cbn [map]. intro X. inversion X as [[X1 X2]]. unfold kv_text in X1. destruct (fst kv0); discriminate. }
   rewrite split_join.
-  2:{ destruct kvs; [congruence|discriminate]. }
+  2:{ rewrite Ek; discriminate. }
   2:{ apply Forall_map. eapply Forall_impl; [|exact H]. intros [k v] [[C1 _] [[C2 _] _]]. unfold kv_text. cbn [fst snd] in *.
       apply free_of_app; [assumption|]. constructor; [reflexivity | assumption]. }
   rewrite map_map.
   assert (G : forall acc, dict_of (map (fun x => map strip (split_on "="%char (strip (kv_text x)))) kvs) acc
                            = Some (dict_build kvs acc)).
-  { clear Hne. induction H as [|[k v] kvs Hkv Hr IH]; intro acc; cbn [map dict_of dict_build]; [reflexivity|].
+  { clear Hne Ek Tr. induction H as [|[k v] kvs Hkv Hr IH]; intro acc; cbn [map dict_of dict_build]; [reflexivity|].
     destruct Hkv as [[Ck1 [Ck2 Ck3]] [[Cv1 [Cv2 Cv3]] [Nk Nv]]]. cbn [fst snd] in *.
     rewrite strip_trimmed by (apply trimmed_kv; assumption).
     unfold kv_text. cbn [fst snd]. rewrite split_on_app by assumption. rewrite split_on_free by assumption.
